@@ -176,31 +176,38 @@ def run(ctx):
             if det != 0:
                 break
         t = np.array([rng.randrange(-20, 21) for _ in range(3)], dtype=float)
+        # voxel-to-world matrices of micrometre data have tiny determinants: scale by an exact power of two
+        k = rng.choice([0, 0, 3, 7, 10, 12, 17])
+        sc = 2.0 ** -k
+        Rs = R * sc
         M = np.eye(4)
-        M[:3, :3], M[:3, 3] = R, t
+        M[:3, :3], M[:3, 3] = Rs, t
         T = M if rng.random() < 0.5 else M[:3, :]
+        desc = {"R": R.tolist(), "scale": f"2^-{k}", "det": det * sc ** 3}
         try:
             v2, t2 = mesh_mod.affine_transform_mesh(verts.copy(), tris.copy(), T)
         except Exception as exc:  # noqa
-            ctx.oracle_fail(f"affine_transform_mesh raised {type(exc).__name__}", {"R": R.tolist()})
+            ctx.oracle_fail(f"affine_transform_mesh raised {type(exc).__name__}", desc)
             continue
-        ctx.case(("affine", R.tobytes(), verts.tobytes(), tris.tobytes()))
+        ctx.case(("affine", R.tobytes(), k, verts.tobytes(), tris.tobytes()))
         ctx.hist("affine_det_sign", "neg" if det < 0 else "pos")
-        if not np.array_equal(np.asarray(v2), verts @ R.T + t):
-            ctx.oracle_fail("affine_transform_mesh does not move the vertices by the transform", {"R": R.tolist()})
+        ctx.hist("affine_det_magnitude", "1e%d" % int(np.floor(np.log10(abs(det * sc ** 3)))))
+        if not np.array_equal(np.asarray(v2), verts @ Rs.T + t):
+            ctx.oracle_fail("affine_transform_mesh does not move the vertices by the transform", desc)
             continue
+        # orientation, exactly: in transformed coordinates the signed volume of (a2, b2, c2, p2) is
+        # scale^3 * det(R) * the signed volume of the same vertex order in the original coordinates
         p = verts.mean(axis=0) + np.array([0.3, 0.1, 0.7])
-        p2 = R @ p + t
         for (a, b, c), (a2, b2, c2) in zip(tris, np.asarray(t2)):
             vol = np.linalg.det(np.array([verts[b] - verts[a], verts[c] - verts[a], p - verts[a]]))
-            vol2 = np.linalg.det(np.array([v2[b2] - v2[a2], v2[c2] - v2[a2], p2 - v2[a2]]))
+            vol_new_order = np.linalg.det(np.array([verts[b2] - verts[a2], verts[c2] - verts[a2], p - verts[a2]]))
             if {a, b, c} != {a2, b2, c2}:
-                ctx.oracle_fail("affine_transform_mesh changed the vertices of a triangle", {"R": R.tolist()})
+                ctx.oracle_fail("affine_transform_mesh changed the vertices of a triangle", desc)
                 break
-            if abs(vol) > 1e-9 and (vol > 0) != (vol2 > 0):
+            if abs(vol) > 1e-9 and (vol > 0) != ((vol_new_order > 0) == (det > 0)):
                 ctx.oracle_fail("a triangle's orientation relative to a transformed reference point changed "
                                 "(winding must be reversed exactly when the transform mirrors space)",
-                                {"R": R.tolist(), "det": det, "triangle": [int(a), int(b), int(c)]})
+                                dict(desc, triangle=[int(a), int(b), int(c)]))
                 break
     # ---- (c) GIfTI conversion, (d) VTK, (e) links -----------------------------------------------------------------
     for _ in range(ctx.budget(12, 300)):
